@@ -164,6 +164,7 @@ EXPLORE = {
     'device2': ('device', [[_S(1), _S(2)], [_S(3)], [_P, _P], [_I]]),
     'userloop2': ('userloop', [[_S(1), _S(2)], [_P], [_R]]),
     'echorecv': ('echo', [[_S(1)], [_R]]),
+    'sharedbuf2': ('sharedbuf', [[_S(1), _S(2)], [_P, _P], [_S(3)]]),
     'iorecv': ('ioport', [[_S(1)], [_R]]),
 }
 NSHARD = 16
@@ -289,21 +290,21 @@ def run(ctx):
     # seeded random / PCT schedules, larger programs, all kinds incl. MultiPort
     rng = random.Random(ctx.seed * 31 + 10)
     n = 6000 if thorough else 500
-    jobs = [(rng.choice(['echo', 'device', 'ioport', 'multi', 'pqueue', 'userloop']), rng.randrange(1 << 30),
+    jobs = [(rng.choice(['echo', 'device', 'ioport', 'multi', 'pqueue', 'userloop', 'sharedbuf']), rng.randrange(1 << 30),
              rng.choice(['random', 'pct'])) for _ in range(n)]
     # the same kind of programs with a thread switch possible at EVERY statement of
     # ports.py / parser.py / tokenizer.py / _parser_queue.py (sys.settrace)
     nl = 2500 if thorough else 160
-    jobs += [(rng.choice(['echo', 'device', 'ioport', 'multi', 'pqueue', 'userloop']), rng.randrange(1 << 30),
+    jobs += [(rng.choice(['echo', 'device', 'ioport', 'multi', 'pqueue', 'userloop', 'sharedbuf']), rng.randrange(1 << 30),
               rng.choice(['random', 'pct']), True) for _ in range(nl)]
     col2 = Collect(ctx, random_worker, batch_size=1)
     col2.map(list(core.chunks(jobs, 50)))
     validate_histories(ctx, col2.hist, 'PortTrace: histories of seeded random/PCT schedules')
     # every schedule with at most K preemptions of a few programs on the real ports,
     # explored by re-execution (the implementation itself is the transition system)
-    plan = ([('multi3', 3), ('multi2l', 2), ('multirecv', 2), ('ioport2', 3), ('pqueue2', 3), ('device2', 2), ('userloop2', 3), ('echorecv', 4), ('iorecv', 3)]
+    plan = ([('multi3', 3), ('multi2l', 2), ('multirecv', 2), ('ioport2', 3), ('pqueue2', 3), ('device2', 2), ('userloop2', 3), ('echorecv', 4), ('iorecv', 3), ('sharedbuf2', 3)]
             if thorough else
-            [('multi3', 2), ('multi2l', 1), ('multirecv', 1), ('ioport2', 2), ('pqueue2', 2), ('device2', 1), ('userloop2', 2), ('echorecv', 3), ('iorecv', 2)])
+            [('multi3', 2), ('multi2l', 1), ('multirecv', 1), ('ioport2', 2), ('pqueue2', 2), ('device2', 1), ('userloop2', 2), ('echorecv', 3), ('iorecv', 2), ('sharedbuf2', 2)])
     col3 = Collect(ctx, explore_worker, batch_size=1)
     col3.map([[(name, k, sh, 60000 if thorough else 3000)] for name, k in plan for sh in range(NSHARD)])
     ctx.note('explored_schedules', col3.n)
